@@ -379,6 +379,60 @@ where
     )
 }
 
+/// Purges of many tombstones at once (a handler may batch its storage calls): n documents
+/// written and deleted by one origin, the origin moves on by more than an hour on both
+/// sources, then `PurgeDeletes` with the storage removing only part of what it is asked to;
+/// the set and the store must agree after the failed purge and after a second, healthy one.
+async fn large_purge(n: usize, fault: Fault, st: &mut Stats) {
+    let _wall = Wall::start();
+    let mut pool: Vec<Op> = Vec::new();
+    for i in 0..n {
+        pool.push(Op::ins(100 + i as u64, ts_min(0, i as u16, 1)));
+    }
+    for i in 0..n {
+        pool.push(Op::del(100 + i as u64, ts_min(5, i as u16, 1)));
+    }
+    pool.push(Op::ins(1, ts_min(70, 0, 1)));
+    pool.push(Op::ins(2, ts_min(75, 0, 1)));
+    let clock = Clock::new(9);
+    let store = Arc::new(FaultStore::new(Arc::new(MapStore::default())));
+    let group = ec::KeyspaceGroup::new(store.clone(), clock).await;
+    let ks = group.get_or_create_keyspace(KS).await;
+    let steps = [
+        Req::MultiSet { ops: (0..n).collect(), src: 0 },
+        Req::MultiDel { ops: (n..2 * n).collect(), src: 0 },
+        Req::Set { op: 2 * n, src: 0 },
+        Req::Set { op: 2 * n + 1, src: 1 },
+    ];
+    for r in &steps {
+        let _ = send_request(&ks, &pool, r).await;
+    }
+    let case = || J::obj().set("scenario", "large purge").set("tombstones", n).set("storage_answer_to_the_purge", format!("{fault:?}"));
+    let fmt = |v: &Vec<(Key, HLCTimestamp)>| format!("{} entries, first {:?}", v.len(), v.iter().take(3).map(|(k, t)| format!("{k}@{t}")).collect::<Vec<_>>());
+    for (phase, f) in [("failed-purge", fault), ("second-purge", Fault::None)] {
+        store.plan([f]);
+        let _ = send_request(&ks, &pool, &Req::Purge).await;
+        store.plan([]);
+        st.inc("large_purges");
+        let obs = match observe(&ks, store.as_ref(), &pool).await {
+            Ok(o) => o,
+            Err(e) => {
+                st.violation("observation-failed", || e.clone(), case);
+                return;
+            },
+        };
+        if phase == "failed-purge" && obs.dead.len() < n {
+            st.inc("large_purges_that_removed_something");
+        }
+        if obs.live != obs.rows_live {
+            st.violation(&format!("live-entries-differ/large-purge/{phase}"), || format!("set live: {}; storage documents: {}", fmt(&obs.live), fmt(&obs.rows_live)), case);
+        }
+        if obs.dead != obs.rows_dead {
+            st.violation(&format!("tombstones-differ/large-purge/{phase}"), || format!("set tombstones: {}; storage tombstones: {}", fmt(&obs.dead), fmt(&obs.rows_dead)), case);
+        }
+    }
+}
+
 pub fn run(tier: Tier) -> i32 {
     let mut report = Report::new("C02", tier, "model_checking");
     let pool = pool();
@@ -395,6 +449,21 @@ pub fn run(tier: Tier) -> i32 {
     parts.push(("MemStore", sum.clone()));
     total.merge(st);
 
+    // purges of many tombstones with partial storage failures (added after the seeded change C02-h)
+    {
+        let sizes: Vec<usize> = if tier.is_thorough() { vec![1, 3, 63, 64, 65, 127, 128, 129, 300] } else { vec![3, 64, 65, 130] };
+        for n in sizes {
+            let mut faults = vec![Fault::None, Fault::FailBefore, Fault::FailAfter(1), Fault::FailAfter(3), Fault::FailOnly(0)];
+            if n > 1 {
+                faults.push(Fault::FailAfter(n - 1));
+                faults.push(Fault::FailOnly(n - 1));
+                faults.push(Fault::FailAfter(n / 2));
+            }
+            for f in faults {
+                vkit::e2::block_on_fresh(large_purge(n, f, &mut total));
+            }
+        }
+    }
     total.sample(|| {
         history_json(
             &pool,
@@ -446,6 +515,26 @@ pub fn run(tier: Tier) -> i32 {
 }
 
 pub fn replay(case: &J) -> i32 {
+    if case.get("scenario").and_then(|v| v.as_str()) == Some("large purge") {
+        let n = case.get("tombstones").and_then(|v| v.as_u64()).unwrap_or(65) as usize;
+        let f = case.get("storage_answer_to_the_purge").and_then(|v| v.as_str()).unwrap_or("None");
+        let num = |t: &str| t.trim_matches(|c: char| !c.is_ascii_digit()).parse::<usize>().unwrap_or(0);
+        let fault = if f.starts_with("FailBefore") {
+            Fault::FailBefore
+        } else if f.starts_with("FailAfter") {
+            Fault::FailAfter(num(f))
+        } else if f.starts_with("FailOnly") {
+            Fault::FailOnly(num(f))
+        } else {
+            Fault::None
+        };
+        let mut st = Stats::default();
+        vkit::e2::block_on_fresh(large_purge(n, fault, &mut st));
+        for v in &st.found {
+            println!("{}: {}", v.key, v.what);
+        }
+        return (!st.found.is_empty()) as i32;
+    }
     let pool = pool();
     let history: Vec<Step> = case
         .get("requests")
